@@ -41,6 +41,9 @@ pub enum AddMode {
     MalformedSig,
     /// keep the request until released
     Hold,
+    /// a well-formed error object with that error code (anything but the subscription error) and the HTTP status
+    /// the real tower uses for it
+    ApiErr(u8),
     /// a subscription error until the client has registered again, a receipt from then on (a real tower
     /// whose subscription has run out)
     SubErrUntilReg,
@@ -163,6 +166,15 @@ pub fn add_reply(idx: u32, st: &mut TState, mode: &AddMode, req: &Value) -> (u32
             (200, serde_json::to_vec(&v).unwrap())
         }
         AddMode::SubErr => (401, serde_json::to_vec(&json!({"error": "subscription error", "error_code": teos_common::errors::INVALID_SIGNATURE_OR_SUBSCRIPTION_ERROR})).unwrap()),
+        AddMode::ApiErr(code) => {
+            let status = match *code {
+                c if c == teos_common::errors::SERVICE_UNAVAILABLE => 503,
+                c if c == teos_common::errors::APPOINTMENT_NOT_FOUND => 404,
+                c if c == teos_common::errors::INVALID_SIGNATURE_OR_SUBSCRIPTION_ERROR => 401,
+                _ => 400,
+            };
+            (status, serde_json::to_vec(&json!({"error": "some documented error", "error_code": code})).unwrap())
+        }
         AddMode::Reject => (400, serde_json::to_vec(&json!({"error": "appointment already triggered", "error_code": teos_common::errors::APPOINTMENT_ALREADY_TRIGGERED})).unwrap()),
         AddMode::NonJson => (502, b"<html><body>502 Bad Gateway</body></html>".to_vec()),
         AddMode::WrongShape => (200, b"{\"unexpected\": [1, 2, 3]}".to_vec()),
